@@ -755,6 +755,10 @@ type node struct {
 	reverOK   bool // re-verified successfully at FinishStateSync
 	failedOwn bool // failed its own re-verification
 	failedAnc bool // skipped because an ancestor failed
+	// orphaned: still processing at FinishStateSync although the engine had
+	// already rejected one of its ancestors (the finish ran from the engine
+	// thread between the transitive rejections that follow an accept)
+	orphaned bool
 }
 
 func (n *node) modelState() ids.ID {
